@@ -1,0 +1,83 @@
+//! Verification hook (cargo feature `verif_hooks`, off by default): a read-only probe that describes the
+//! bookkeeping of the NamingActor at a message boundary. It asserts nothing and changes nothing; external
+//! runtime monitors compare the description with what the public queries return.
+use super::core::NamingActor;
+use actix::prelude::*;
+use serde_json::{json, Value};
+
+#[derive(Message)]
+#[rtype(result = "Value")]
+pub struct VerifNamingProbe;
+
+impl Handler<VerifNamingProbe> for NamingActor {
+    type Result = MessageResult<VerifNamingProbe>;
+
+    fn handle(&mut self, _msg: VerifNamingProbe, _ctx: &mut Self::Context) -> Self::Result {
+        let mut services = vec![];
+        for (key, service) in &self.service_map {
+            let mut instances = vec![];
+            for (short_key, instance) in &service.instances {
+                instances.push(json!({
+                    "ip": short_key.ip.as_str(),
+                    "port": short_key.port,
+                    "healthy": instance.healthy,
+                    "enabled": instance.enabled,
+                    "ephemeral": instance.ephemeral,
+                    "from_grpc": instance.from_grpc,
+                    "from_cluster": instance.from_cluster,
+                    "client_id": instance.client_id.as_str(),
+                    "last_modified_millis": instance.last_modified_millis,
+                }));
+            }
+            let mut perpetual: Vec<String> = service
+                .perpetual_host_set
+                .iter()
+                .map(|k| format!("{}:{}", k.ip, k.port))
+                .collect();
+            perpetual.sort();
+            services.push(json!({
+                "namespace": key.namespace_id.as_str(),
+                "group": key.group_name.as_str(),
+                "service": key.service_name.as_str(),
+                "instance_size": service.instance_size,
+                "healthy_instance_size": service.healthy_instance_size,
+                "instances": instances,
+                "perpetual_host_set": perpetual,
+                "healthy_timeout_set_len": service.healthy_timeout_set.len(),
+                "unhealthy_timeout_set_len": service.unhealthy_timeout_set.len(),
+                "instance_metadata_map_len": service.instance_metadata_map.len(),
+            }));
+        }
+        let mut index = vec![];
+        for (namespace, service_index) in &self.namespace_index.namespace_group {
+            for (group, names) in &service_index.group_service {
+                for name in names {
+                    index.push(json!([namespace.as_str(), group.as_str(), name.as_str()]));
+                }
+            }
+        }
+        let mut clients = vec![];
+        for (client_id, keys) in &self.client_instance_set {
+            let mut list = vec![];
+            for k in keys {
+                list.push(json!({
+                    "namespace": k.namespace_id.as_str(),
+                    "group": k.group_name.as_str(),
+                    "service": k.service_name.as_str(),
+                    "ip": k.ip.as_str(),
+                    "port": k.port,
+                }));
+            }
+            clients.push(json!({"client_id": client_id.as_str(), "instances": list}));
+        }
+        MessageResult(json!({
+            "services": services,
+            "namespace_index": index,
+            "namespace_index_service_size": self.namespace_index.service_size,
+            "client_instance_set": clients,
+            "empty_service_set_len": self.empty_service_set.len(),
+            "node_id": self.node_id,
+            "current_range": self.current_range.as_ref().map(|r| json!([r.index, r.len])),
+        }))
+    }
+}
